@@ -104,8 +104,9 @@ def from_example(name):
     os.chdir(wd)
     err = ""
     try:
-        if "/repo" not in sys.path:
-            sys.path.insert(0, "/repo")
+        from ..hd import REPO
+        if REPO not in sys.path:
+            sys.path.insert(0, REPO)
         import contextlib
         with contextlib.redirect_stdout(io.StringIO()):
             mod = importlib.import_module(f"examples.{name}")
